@@ -1,14 +1,14 @@
 CONSTANTS
-  Kind = "cont"
-  MaxK = 3
+  Kind = "bin"
+  MaxK = 2
   MaxCell = 1
-  YVals = {0, 1, 2}
+  YVals = {0}
   MaxMods = {2, 3}
-  Thresholds <- ThrB
-  Measures = {"kruskal"}
-  DevFlags = {FALSE}
-  NanFlags = {FALSE, TRUE}
-  DropFlags = {TRUE, FALSE}
+  Thresholds <- ThrC
+  Measures = {"cramerv"}
+  DevFlags = {TRUE}
+  NanFlags = {TRUE}
+  DropFlags = {TRUE}
 SPECIFICATION Spec
 INVARIANT Inv_C01_opt
 INVARIANT Inv_C01_drop
